@@ -62,6 +62,11 @@ type Inst struct {
 	failAt      map[string]int // named I/O operation -> how many of the next calls fail
 	flushes     int            // AOF buffer writes so far
 	parkAtFlush int            // park the flushing goroutine at this flush (1-based), 0 = never
+	// disk full: from the diskFullAt-th buffer write on, the volume takes diskFullKeep/4 of that
+	// buffer and nothing more (sim/diskfull.go)
+	diskFullAt   int
+	diskFullKeep int
+	diskFull     bool
 }
 
 type aofSizeMark struct {
